@@ -21,7 +21,7 @@ from pathlib import Path
 from . import asm, tlc
 from .common import CACHE, SPECS, ToolError, build_wild, log, sh
 
-SCN_KEYS = ("fork", "multi", "prior", "shared", "wopt", "mmapOut", "holder", "faultAt", "faultKind", "changeAt")
+SCN_KEYS = ("fork", "multi", "prior", "shared", "wopt", "mmapOut", "holder", "faultAt", "faultKind", "reapable", "changeAt")
 PHASES = ["start", "loaded", "symbols", "resolved", "laid_out", "pre_write", "mid_write", "flushed",
           "unmapped", "written", "verified", "finished", "pre_inform", "post_inform", "end"]
 
@@ -258,8 +258,14 @@ def run_scenario(ws, scn, d, tokens=None, measure_threads=False, trace=False, yi
         holder_sum0 = holder_proc.stdout.readline().strip()
     before = snapshot(d)
     t0 = time.time()
+    def child_setup():
+        os.setsid()
+        if not scn.get("reapable", True):
+            # the caller ignores SIGCHLD (inherited across execve): wild's waitpid() gets ECHILD
+            signal.signal(signal.SIGCHLD, signal.SIG_IGN)
+
     p = subprocess.Popen([str(build_wild())] + args, env=env, cwd=d, stdout=subprocess.PIPE,
-                         stderr=subprocess.PIPE, stdin=subprocess.DEVNULL, start_new_session=True,
+                         stderr=subprocess.PIPE, stdin=subprocess.DEVNULL, preexec_fn=child_setup,
                          pass_fds=pass_fds)
     sid = p.pid
     nthreads = None
